@@ -83,6 +83,21 @@ enum Op {
     TransferFrom { sp: usize, from: usize, to: usize, id: u32 },
     Burn { from: usize, id: u32, by: By },
     BurnFrom { sp: usize, from: usize, id: u32 },
+    /// no call at all: on a rebuilt copy of the state 600000 ledgers pass without any invocation
+    /// (beyond the lifetime of every temporary entry and of every TTL extension the library
+    /// performs); owners, balances and enumerations must be what they were, and the next
+    /// sequential / batch mint must still issue an id that was never issued before
+    IdleProbe,
+}
+
+/// ledgers that pass in an idle probe (largest TTL extension of the library: 518400; persistent
+/// TTL of `envx::mk_env`: 3000000)
+const IDLE: u32 = 600_000;
+
+/// A disagreement found after the idle period: nothing was called in between, so whatever differs
+/// from the model was lost (or appeared) through the passage of time alone.
+fn idle_viol(v: Violation) -> Violation {
+    Violation::new("state-survives-idle", format!("[{}] {}", v.oracle, v.detail))
 }
 
 #[derive(Clone, Debug, PartialEq, Eq, Hash)]
@@ -377,10 +392,42 @@ impl Nft {
             Op::TransferFrom { sp, from, to, id } => ("transfer_from", (u(*sp), u(*from), u(*to), *id).into_val(e)),
             Op::Burn { from, id, .. } => ("burn", (u(*from), *id).into_val(e)),
             Op::BurnFrom { sp, from, id } => ("burn_from", (u(*sp), u(*from), *id).into_val(e)),
+            Op::IdleProbe => unreachable!("the idle probe is not a contract call"),
         }
     }
 
+    /// The idle probe (see `Op::IdleProbe`), on a throw-away copy of the state.
+    fn idle_probe(&self, copy: &Inst, m: &Model, st: &mut Stats) -> Result<(), Violation> {
+        envx::advance(&copy.e, IDLE);
+        // the probe's getter calls are counted apart from the ones the vacuity rule relies on
+        let mut own = Stats::default();
+        let after = format!("{IDLE} ledgers without any call");
+        self.compare(copy, m, &after, &mut own).map_err(idle_viol)?;
+        // the id counter: approvals have expired meanwhile, minting does not depend on them
+        let mint = match self.flavour {
+            Flavour::BaseSeq | Flavour::EnumSeq => Some(Op::Mint { to: 0 }),
+            Flavour::Consecutive => Some(Op::BatchMint { to: 0, n: 1 }),
+            Flavour::BaseExplicit | Flavour::EnumExplicit => None,
+        };
+        if let Some(op) = mint {
+            if self.exec(copy, &op).is_ok() {
+                let mut m2 = m.clone();
+                self.accept(&mut m2, &op).map_err(idle_viol)?;
+                self.compare(copy, &m2, &format!("{after} and then {op:?}"), &mut own).map_err(idle_viol)?;
+                st.count("mints-after-long-idle", 1);
+            }
+        }
+        for (k, n) in &own.counters {
+            st.count(&format!("{k}-after-long-idle"), *n);
+        }
+        st.count("idle-probes", 1);
+        Ok(())
+    }
+
     fn exec(&self, i: &Inst, op: &Op) -> CallRes {
+        if matches!(op, Op::IdleProbe) {
+            return Err(vh::auth::CallErr::Other("idle probe: no call".into()));
+        }
         let (f, args) = self.call(i, op);
         let r = call_mocked(&i.e, &i.c, f, args);
         if std::env::var("VH_DEBUG").is_ok() {
@@ -451,6 +498,7 @@ impl Nft {
                 m.approved.insert(*id, *spender);
                 m.touched.insert(*id);
             }
+            Op::IdleProbe => {}
         }
         Ok(())
     }
@@ -722,6 +770,7 @@ impl World for Nft {
                 }
             }
         }
+        v.push(Op::IdleProbe);
         v
     }
 
@@ -748,6 +797,7 @@ impl World for Nft {
             }
             Op::Burn { by: b, .. } => format!("burn{}", by(b)),
             Op::BurnFrom { sp, .. } => format!("burn_from{}", if *sp == OPERATOR { "" } else { ".token-approval" }),
+            Op::IdleProbe => "idle-probe".to_string(),
         }
     }
 
@@ -762,6 +812,11 @@ impl World for Nft {
             "the seed batch ({}) was refused; batches of 1..=32000 tokens are part of the property",
             self.seed_name(cx.seed)
         );
+        if matches!(op, Op::IdleProbe) {
+            let copy = cx.rebuild();
+            self.idle_probe(&copy, m, cx.stats)?;
+            return Ok(false);
+        }
         if self.exec(i, op).is_err() {
             // informational: operations the model would have allowed
             let legit = match op {
@@ -803,7 +858,7 @@ fn main() {
     main_with(
         "C10",
         "model_checking",
-        "level-BFS over histories of mint (sequential / explicit ids {0,1,7,u32::MAX} incl. re-mint of a burned explicit id / batch_mint n in {1,2,3,5}) / transfer (to self, to another account, by a non-owner, of a non-existent id) / transfer_from and burn_from (by the approved-for-all operator; thorough: also after a token-level approve) / burn, on the first, second, middle, last-1, last id and the item(32)- and bucket(3200)-edge ids of every batch, 3 accounts, on the real nft-sequential-minting / nft-enumerable / nft-consecutive examples and Base::mint / Enumerable::non_sequential_mint wrappers; depth 6 (base, enumerable sequential), 5 (enumerable explicit ids), 4 (consecutive; thorough: + depth 5 with a lean alphabet); seeds: sequential id counter at u32::MAX-2, consecutive initial batch of 31/32/33 (depth 3) and, thorough, 3199/3200/3201 (depth 3) and 32000 (depth 2); after every accepted step: owner_of and token_uri for every id in 0..next_id+2 (more than 400 ids issued: every id within 2 of a touched id, a batch edge, the adjacent multiples of 32 and every multiple of 3200), balance of every account = ids owned, enumerable: total_supply + global and per-owner lists as exact sets with every index once and the index past the end refused; non-trivial = distinct storage state reached through >=1 accepted call",
+        "level-BFS over histories of mint (sequential / explicit ids {0,1,7,u32::MAX} incl. re-mint of a burned explicit id / batch_mint n in {1,2,3,5}) / transfer (to self, to another account, by a non-owner, of a non-existent id) / transfer_from and burn_from (by the approved-for-all operator; thorough: also after a token-level approve) / burn, on the first, second, middle, last-1, last id and the item(32)- and bucket(3200)-edge ids of every batch, 3 accounts, on the real nft-sequential-minting / nft-enumerable / nft-consecutive examples and Base::mint / Enumerable::non_sequential_mint wrappers; depth 6 (base, enumerable sequential), 5 (enumerable explicit ids), 4 (consecutive; thorough: + depth 5 with a lean alphabet); seeds: sequential id counter at u32::MAX-2, consecutive initial batch of 31/32/33 (depth 3) and, thorough, 3199/3200/3201 (depth 3) and 32000 (depth 2); after every accepted step: owner_of and token_uri for every id in 0..next_id+2 (more than 400 ids issued: every id within 2 of a touched id, a batch edge, the adjacent multiples of 32 and every multiple of 3200), balance of every account = ids owned, enumerable: total_supply + global and per-owner lists as exact sets with every index once and the index past the end refused; idle probe in every expanded state: on a rebuilt copy 600000 ledgers pass without any call, all getters are compared again, then one sequential / batch mint must issue a never issued id (all getters compared once more); non-trivial = distinct storage state reached through >=1 accepted call",
         |tier: Tier, r: &mut Runner| {
             let th = tier == Tier::Thorough;
             let world = |flavour: Flavour, name: &'static str, seeds: Vec<Seed>| Nft {
@@ -867,6 +922,13 @@ fn main() {
                 }
                 rep.require(&ok, &["transfer.by-non-owner", "transfer.nonexistent-token", "burn.by-non-owner", "burn.nonexistent-token"]);
                 rep.require_counter(&["owner_of-queries", "balance-comparisons", "enumeration-entries-compared"]);
+                rep.require_counter(&[
+                    "idle-probes",
+                    "mints-after-long-idle",
+                    "owner_of-queries-after-long-idle",
+                    "balance-comparisons-after-long-idle",
+                    "enumeration-entries-compared-after-long-idle",
+                ]);
             }
         },
     );
